@@ -52,9 +52,13 @@ META = dict(
                'ends, client restart with an old ID, remove_all_servers, '
                'context-manager exit, foreign instances created directly) on '
                '1-2 mock servers and 1-3 managers whose IDs / filter IDs / '
-               'destination IDs come from printable strings incl. regex '
-               'metacharacters, prefixes of each other, blanks and '
-               'non-ASCII.  After every call the owned lists of every '
+               'destination IDs come (all three kinds alike) from pools of '
+               'colliding strings (regex metacharacters, prefixes of each '
+               'other, blanks, non-ASCII) and from random strings over every '
+               'printable ASCII character incl. ":"; every history that '
+               'created something ends, in one of two runs, with a client '
+               'restart of each manager (rediscovery) before the final '
+               'clean-up.  After every call the owned lists of every '
                'manager x server, the model and the instances really present '
                'in the interop namespace are compared.  '
                'Held-on-K-histories evidence, not a proof.',
@@ -76,7 +80,11 @@ META = dict(
         'subscription is not defined by the statement)',
         'permanent and foreign Name values never have the owned form '
         '"pywbemfilter:<id>:<x>" / "pywbemdestination:<id>:<x>"',
-        'IDs contain no ":" (statement) and no control characters',
+        'IDs contain no control characters; an ID with ":" (the separator '
+        'of the ownership marker; excluded by the statement and documented '
+        'as not allowed for all three kinds) must be refused with '
+        'ValueError - if one is accepted, the instance is modelled as owned '
+        'like any other and the history goes on',
         'the DMTF CIM schema 2.49 MOF archive under tests/schema of the '
         'repository (of /repo if the tree under test is a scratch copy '
         'without it), unpacked into a private directory per worker, '
@@ -95,6 +103,9 @@ META = dict(
         'WBEMSubscriptionManager.remove_destinations',
         'WBEMSubscriptionManager.remove_subscriptions',
         'restart.rediscovered', 'refusal.referenced-removal',
+        'id-with-colon.manager', 'id-with-colon.filter', 'id-with-colon.dest',
+        'id-random-printable.manager', 'id-random-printable.filter',
+        'id-random-printable.dest',
         'refusal.permanent-on-owned', 'remove_server.with-owned',
         'state-checks'],
 )
@@ -194,6 +205,9 @@ def setup_worker(ctx):
 def finish_worker(ctx):
     ctx.state['reach'].flush(ctx)
     ctx.state['reach'].stop()
+    # which printable characters occurred in random IDs of each kind
+    for kind, seen in ctx.state.get('id_chars', {}).items():
+        ctx.extra['id_characters_%s' % kind] = sorted(seen)
 
 
 def set_lenient(conn, lenient):
@@ -248,6 +262,36 @@ BAD_URLS = ['http://noport', 'localhost', '', 'ftp://x:1', 'http://:5000',
 QUERIES = ['SELECT * FROM CIM_AlertIndication',
            "SELECT * FROM CIM_InstCreation WHERE x = 'y:z'", 'q']
 _META = set('.^$*+?{}[]\\|()')
+PRINTABLE = ''.join(chr(c) for c in range(0x20, 0x7f))
+_SPECIAL = ':' + ''.join(sorted(_META))
+
+
+def random_id(rng):
+    """1-5 characters from all printable ASCII characters; every other one
+    has a ':' or a regex metacharacter somewhere."""
+    n = rng.choice([1, 1, 2, 3, 3, 4, 5])
+    chars = [rng.choice(PRINTABLE) for _ in range(n)]
+    r = rng.random()
+    if r < 0.25:
+        chars.insert(rng.randrange(n + 1), ':')
+    elif r < 0.5:
+        chars.insert(rng.randrange(n + 1), rng.choice(_SPECIAL))
+    return ''.join(chars)
+
+
+def item_id(rng, ctx, kind):
+    """Filter / destination ID: from the pool of colliding IDs, or random."""
+    if rng.random() < 0.6:
+        return rng.choice(ITEM_IDS)
+    s = random_id(rng)
+    note_id(ctx, kind, s)
+    return s
+
+
+def note_id(ctx, kind, s):
+    ctx.count('id-random-printable.' + kind)
+    seen = ctx.state.setdefault('id_chars', {}).setdefault(kind, set())
+    seen.update(s)
 
 
 def has_meta(s):
@@ -268,11 +312,12 @@ def id_class(s):
 
 class Rec:
     __slots__ = ('kind', 'key', 'tag', 'owner', 'path', 'fp', 'url', 'ptype',
-                 'fkey', 'dkey')
+                 'fkey', 'dkey', 'iid')
 
     def __init__(self, kind, key, tag, owner, path, fkey=None, dkey=None,
-                 url=None, ptype=None):
+                 url=None, ptype=None, iid=None):
         self.kind, self.key, self.tag, self.owner = kind, key, tag, owner
+        self.iid = iid      # the filter / destination ID of an owned one
         self.path = path
         self.fp = None
         self.url, self.ptype = url, ptype
@@ -354,12 +399,39 @@ class History:
         else:
             self.idmode = 'benign'
         while len(ids) < n:
-            c = rng.choice(BENIGN_IDS[:6] if rng.random() < 0.5
-                           else BENIGN_IDS)
-            if c not in ids:
+            r = rng.random()
+            if r < 0.25:
+                c = random_id(rng)
+                note_id(self.ctx, 'manager', c)
+            else:
+                c = rng.choice(BENIGN_IDS[:6] if r < 0.6 else BENIGN_IDS)
+            if c not in ids and c.replace(':', '') not in ids:
                 ids.append(c)
         rng.shuffle(ids)
         return ids
+
+    def new_manager(self, m):
+        """WBEMSubscriptionManager(m.id); an ID with ':' must be refused -
+        the history then goes on with the ':' taken out."""
+        if ':' in m.id:
+            self.ctx.count('id-with-colon.manager')
+            what = 'WBEMSubscriptionManager(%r)' % m.id
+            self.note(what)
+            st, res = self.call(what, WBEMSubscriptionManager, m.id)
+            if st == 'ok':
+                self.ctx.violation(
+                    'id-with-colon.accepted.manager',
+                    '%s succeeded although the ID contains the separator '
+                    '":" of the ownership marker' % what, self.desc())
+            elif st == 'exc' and not isinstance(res, ValueError):
+                self.ctx.violation(
+                    'id-with-colon.manager.' + type(res).__name__,
+                    '%s raised %r instead of ValueError' % (what, res),
+                    self.desc())
+            self.out('manager-id-with-colon', type(res).__name__
+                     if st != 'ok' else 'accepted')
+            m.id = m.id.replace(':', '')
+        m.obj = WBEMSubscriptionManager(m.id)
 
     def desc(self):
         return {'managers': [m.id for m in self.mgrs],
@@ -598,6 +670,32 @@ class History:
                 srv.objs[key].owner = None
             self.out('add_server', 'lost-owned-subscription')
             return
+        colon = {k: {r.key for r in srv.of(k) if r.key in right[k] and
+                     r.iid is not None and ':' in r.iid}
+                 for k in (DEST, FILT)}
+        if colon[DEST] or colon[FILT]:
+            # expected if such instances are simply not recognised
+            exp = {k: right[k] - colon[k] for k in (DEST, FILT)}
+            exp[SUB] = doc_subs(exp[FILT], exp[DEST])
+            if obs == exp:
+                lost = {k: right[k] - exp[k] for k in KINDS}
+                for k in (DEST, FILT):
+                    if lost[k]:
+                        ctx.violation(
+                            'rediscovery.id-with-colon.lost.' + k,
+                            '%s: a new manager object with ID %r does not '
+                            'rediscover its owned %s %r (ID with ":"), nor '
+                            '%d owned subscription(s) on it; they are never '
+                            'removed by remove_server()' % (
+                                what, m.id, k, sorted(lost[k])[0][1],
+                                len(lost[SUB])), self.desc())
+                for k in KINDS:
+                    for key in lost[k]:
+                        # from now on nobody owns them
+                        srv.objs[key].tag = 'permanent'
+                        srv.objs[key].owner = None
+                self.out('add_server', 'lost-owned-with-colon-id')
+                return
         if has_meta(m.id):
             try:
                 pats = {k: re.compile('^%s:%s:[^:]*$' % (PREFIX[k], m.id))
@@ -729,8 +827,9 @@ class History:
         pt = rng.choice([None, None, None, 'transient', 'permanent',
                          'Permanent'])
         kw = dict(owned=owned, persistence_type=pt)
+        did = None
         if owned:
-            did = rng.choice(ITEM_IDS)
+            did = item_id(rng, ctx, DEST)
             kw['destination_id'] = did
             name = '%s:%s:%s' % (PREFIX[DEST], m.id, did)
         else:
@@ -740,13 +839,15 @@ class History:
             m.id, srv.idx, url, kw)
         self.note(what)
         st, res = self.call(what, m.obj.add_destination, srv.url, url, **kw)
+        self.colon_id(DEST, did, what, st, res)
         if st == 'ok':
             key = path_key(res.path)
             if key == (DEST, name):
                 srv.objs.setdefault(key, Rec(
                     DEST, key, 'owned' if owned else 'permanent',
                     m.id if owned else None, res.path,
-                    url=res['Destination'], ptype=res['PersistenceType']))
+                    url=res['Destination'], ptype=res['PersistenceType'],
+                    iid=did))
                 self.out('add_destination', 'created-' +
                          ('owned' if owned else 'permanent'))
             else:
@@ -777,8 +878,9 @@ class History:
         m, srv = pair
         owned = rng.random() < 0.7
         kw = dict(owned=owned)
+        fid = None
         if owned:
-            fid = rng.choice(ITEM_IDS)
+            fid = item_id(rng, self.ctx, FILT)
             kw['filter_id'] = fid
             name = '%s:%s:%s' % (PREFIX[FILT], m.id, fid)
         else:
@@ -795,6 +897,7 @@ class History:
         self.note(what)
         st, res = self.call(what, m.obj.add_filter, srv.url, sns,
                             rng.choice(QUERIES), **kw)
+        self.colon_id(FILT, fid, what, st, res)
         if st == 'ok':
             key = path_key(res.path)
             if key != (FILT, name):
@@ -804,12 +907,31 @@ class History:
                 raise Abort()
             srv.objs.setdefault(key, Rec(
                 FILT, key, 'owned' if owned else 'permanent',
-                m.id if owned else None, res.path))
+                m.id if owned else None, res.path, iid=fid))
             self.out('add_filter', 'created-' +
                      ('owned' if owned else 'permanent'))
         elif st == 'exc':
             self.out('add_filter', 'refused-' + type(res).__name__)
         self.check('add_filter', m)
+
+    def colon_id(self, kind, iid, what, st, res):
+        """An owned filter / destination ID with ':' must be refused with
+        ValueError.  If it is accepted the history goes on with the instance
+        modelled as owned (what becomes of it shows at the next restart)."""
+        if iid is None or ':' not in iid:
+            return
+        self.ctx.count('id-with-colon.' + kind)
+        if st == 'ok':
+            self.ctx.violation(
+                'id-with-colon.accepted.' + kind,
+                '%s succeeded although the ID contains the separator ":" of '
+                'the ownership marker (Name %r)' % (
+                    what, res.path.keybindings['Name']), self.desc())
+        elif st == 'exc' and not isinstance(res, ValueError):
+            self.ctx.violation(
+                'id-with-colon.%s.%s' % (kind, type(res).__name__),
+                '%s raised %r instead of ValueError' % (what, res),
+                self.desc())
 
     def usable(self, m, srv, kind):
         """Instances manager m may be handed: its own, permanent, static,
@@ -1253,7 +1375,7 @@ class History:
                 for _ in range(rng.choice([0, 1, 2, 3])):
                     self.op_foreign(tag='static', srv=srv)
             for m in self.mgrs:
-                m.obj = WBEMSubscriptionManager(m.id)
+                self.new_manager(m)
             self.check('setup')
             # every manager registers somewhere early on
             for m in self.mgrs:
@@ -1302,6 +1424,12 @@ class History:
                     self.op_get_all()
                 else:
                     self.op_foreign()
+            # in one of two histories every manager restarts once more, so
+            # that whatever was created is put to the rediscovery test
+            if rng.random() < 0.5:
+                for m in list(self.live()):
+                    if m.registered:
+                        self.op_restart(m)
             # final clean-up of every manager: exactly the owned instances go
             for m in self.live():
                 if m.registered:
